@@ -15,7 +15,7 @@ are merged recursively (C25_mergeVal_spec).  Priority, lowest first:
   per-call properties override the stored ones                            C26_percall_layering
   a leaf entry of a higher layer simply wins                              C26_higher_leaf_wins
   no "modes" member survives                                              C26_no_modes_key
-  entries for other modes never take effect                               C26_other_modes_inert_mode / _top / _object
+  entries for other modes never take effect                               C26_other_modes_inert_mode / _top / _object / _device
 -/
 import OccaProofs.Lemmas.JsonGenTie
 import OccaProofs.Lemmas.PropsLaws
@@ -153,6 +153,14 @@ theorem C26_other_modes_inert_object (settings : Json) (mode m' object : Bytes) 
     (u3 : DictLike (layer3 mode object (.obj P))) :
     initialObject settings mode object j' = initialObject settings mode object (.obj P) :=
   initialObject_inert_obj settings mode m' object x P j' hP hPw hm ho hos hne hw s1 s2 s3 u1 u2 u3
+
+/-- (4): at the level of the device: whatever is written under `modes/<M'>` of the user properties,
+    device::setup assembles the same `device.properties()` -/
+theorem C26_other_modes_inert_device (settings : Json) (P : Obj) (mode m' : Bytes) (x j' : Json) (hP : Sorted P)
+    (hm : PlainKey mode) (hne : m' ≠ mode) (hmode : lookup sMode P = some (.str mode))
+    (L : DevLayers settings (.obj P) mode) (hw : write [sModes, m'] x (.obj P) = .ok j') :
+    deviceProps settings j' = deviceProps settings (.obj P) :=
+  deviceProps_inert_top settings P mode m' x j' hP hm hne hmode L hw
 
 example : initialObject (.obj [(sKernel, .obj [([120], .num ⟨.i32, 1, []⟩)])]) sSerial sKernel
       (.obj [(sKernel, .obj [(sModes, .obj [(sOpenMP, .obj [([120], .num ⟨.i32, 8, []⟩)]), (sSerial, .obj [([121], .num ⟨.i32, 7, []⟩)])])])])
